@@ -137,6 +137,10 @@ def shrink(scenario):
                 candidate = clone(scenario)
                 candidate["requests"][index]["start"] = 0
                 yield candidate
+            if request.get("fault"):
+                candidate = clone(scenario)
+                del candidate["requests"][index]["fault"]
+                yield candidate
         # the same structural shrink applied to all validations at once (they share the AHB)
         for candidate in shrink_validation(dict(scenario, requests=[requests[0]])):
             first = candidate["requests"][0]
@@ -207,7 +211,8 @@ def _judge(request, outcome, evaluations, verdict):
 
 def execute(scenario):
     evaluations = {}
-    for request in scenario["requests"]:
+    observed = [r for r in scenario["requests"] if not r.get("fault")]
+    for request in observed:
         expressions = [n["e"] for n, _ in walk(request["op"]["ahb"]) if n["t"] != "p"]
         evaluations[request["rid"]] = (
             pristine(evaluate_expressions_alone, scenario, expressions, request["rid"]) if expressions else {}
@@ -217,10 +222,10 @@ def execute(scenario):
     except LIVENESS_ERRORS as error:
         return liveness_verdict(error, scenario)
     verdict = base_verdict(sim, scenario)
-    verdict["observed"] = len(scenario["requests"])
-    verdict["completed"] = sum(1 for o in outcomes.values() if "ok" in o)
+    verdict["observed"] = len(observed)
+    verdict["completed"] = sum(1 for r in observed if "ok" in outcomes.get(r["rid"], {}))
     verdict["probes"]["validations"] = len(scenario["requests"])
-    for request in scenario["requests"]:
+    for request in observed:
         outcome = strip_msg(outcomes.get(request["rid"], {"missing": True}))
         _judge(request, outcome, evaluations[request["rid"]], verdict)
     return verdict
